@@ -103,9 +103,7 @@ func (si *SessionInitMessage) Unmarshal(r io.Reader) error {
 	if err := binary.Read(r, binary.BigEndian, &sessionExtsLen); err != nil {
 		return err
 	} else if sessionExtsLen > 0 {
-		sessionExtsBuff := make([]byte, sessionExtsLen)
-
-		if _, err := io.ReadFull(r, sessionExtsBuff); err != nil {
+		if _, err := readBytes(r, uint64(sessionExtsLen)); err != nil {
 			return err
 		}
 	}
